@@ -46,14 +46,14 @@ def _repair(path):
         f.writelines(good)
 
 
-def bfs_replay(ctx, exe, ty, alpha, depth, K, env):
+def bfs_replay(ctx, exe, ty, sel, alpha, depth, K, env):
     """every edge of the implementation's state graph to `depth`; a sanitizer abort ends the process:
     the edge is recorded as Abort (by the driver's death callback) and skipped on the restart"""
-    poison = os.path.join(ctx.work, "poison_%s.txt" % ty)
+    poison = os.path.join(ctx.work, "poison_%s_%s.txt" % (ty, sel))
     open(poison, "w").close()
     outs, summ, aborts = [], {}, 0
     for k in range(MAX_RESTARTS + 1):
-        out = os.path.join(ctx.work, "bfs_%s.%d.ndjson" % (ty, k))
+        out = os.path.join(ctx.work, "bfs_%s_%s.%d.ndjson" % (ty, sel, k))
         rc, o = lib.run_driver(exe, ["bfs", ty, alpha, depth, out, poison, K], env=env, timeout=2400, allow_fail=True)
         if rc == 0:
             outs.append(out)
@@ -62,7 +62,7 @@ def bfs_replay(ctx, exe, ty, alpha, depth, K, env):
         if rc in (77, 78, 79) and '"e":"Abort"' in _last_line(out):
             aborts += 1
             # keep only the Abort line of an interrupted run (the restart repeats everything else)
-            ab = os.path.join(ctx.work, "bfs_%s.%d.abort.ndjson" % (ty, k))
+            ab = os.path.join(ctx.work, "bfs_%s_%s.%d.abort.ndjson" % (ty, sel, k))
             with open(ab, "w") as f:
                 f.write(_last_line(out) + "\n")
             os.remove(out)
@@ -177,26 +177,32 @@ def run(ctx):
         ctx.transitions = max(ctx.transitions, 1)
         ctx.sample(lib.read_ndjson(ctx.replay)[-1])
         return ctx.finish(rule="replay of one recorded step")
-    alpha = os.path.join(ctx.work, "alphabet.ndjson")
-    depth = 4 if q else 5
     K = 2
     workers = 4 if q else 8
+    # bounded-exhaustive passes: (alphabet, history length)
+    passes = [("full", 3), ("core", 4)] if q else [("full", 4), ("core", 5)]
+    cfg = "MC_VecAbstract" if q else "MC_VecAbstract_thorough"
+    alphas = {}
+    for sel, depth in passes:
+        # the alphabet of the pass: written by TLC from the same module (history length 0: no exploration)
+        alphas[sel] = os.path.join(ctx.work, "alphabet_%s.ndjson" % sel)
+        r0 = lib.tlc("MC_VecAbstract", cfg=cfg, workers=1, timeout=600, heap="2g",
+                     env={"ALPHABET_OUT": alphas[sel], "C11_SEL": sel, "C11_DEPTH": "0"})
+        if not r0.ok or not os.path.exists(alphas[sel]):
+            raise lib.ModelFailure("alphabet generation failed:\n" + r0.out[-2000:])
 
     # 1. model checks of the specifications (in the background while the driver is built and run)
     def model_checks():
         res = []
-        cfg = "MC_VecAbstract" if q else "MC_VecAbstract_thorough"
-        res.append(("MC_VecAbstract", cfg, lib.tlc("MC_VecAbstract", cfg=cfg, workers=workers, timeout=2400, heap="6g",
-                                                   env={"ALPHABET_OUT": alpha + ".mc"})))
+        for sel, depth in passes:
+            res.append(("MC_VecAbstract", "%s alphabet, histories <= %d" % (sel, depth),
+                        lib.tlc("MC_VecAbstract", cfg=cfg, workers=workers, timeout=2400, heap="6g",
+                                env={"C11_SEL": sel, "C11_DEPTH": str(depth)})))
         for mod in ("MC_VecImpl", "MC_ArrayND"):
             if os.path.exists(os.path.join(lib.SPEC, mod + ".tla")):
-                cfg = mod if q else mod + "_thorough"
-                res.append((mod, cfg, lib.tlc(mod, cfg=cfg, workers=workers, timeout=2400, heap="6g")))
+                c = mod if q else mod + "_thorough"
+                res.append((mod, c, lib.tlc(mod, cfg=c, workers=workers, timeout=2400, heap="6g")))
         return res
-    # the alphabet for the replay: a cheap TLC run of the same module (depth 0) so that the driver need not wait
-    r0 = lib.tlc("MC_VecAbstract", cfg="MC_VecAbstract_alphabet", workers=1, timeout=600, heap="2g", env={"ALPHABET_OUT": alpha})
-    if not r0.ok or not os.path.exists(alpha):
-        raise lib.ModelFailure("alphabet generation failed:\n" + r0.out[-2000:])
     pool = cf.ThreadPoolExecutor(8)
     mc_future = pool.submit(model_checks)
 
@@ -204,7 +210,8 @@ def run(ctx):
     exe = lib.build_driver("c11_arrays", san=True, extra=["-fwrapv"])
     futs = {}
     for ty in TYPES1:
-        futs[("bfs", ty)] = pool.submit(bfs_replay, ctx, exe, ty, alpha, depth, K, env)
+        for sel, depth in passes:
+            futs[("bfs", ty + "-" + sel)] = pool.submit(bfs_replay, ctx, exe, ty, sel, alphas[sel], depth, K, env)
         futs[("rand", ty)] = pool.submit(rand_traces, ctx, exe, "rand", ty, 40 if q else 400, 400 if q else 1000, env)
     files = []
     aborts = 0
@@ -231,7 +238,7 @@ def run(ctx):
         for rec in recs[5:2000:400]:
             ctx.sample({k: rec.get(k) for k in ("e", "ty", "op", "err", "post")})
     ctx.extra["sanitizer_aborts"] = aborts
-    ctx.extra["history_depth"] = depth
+    ctx.extra["passes"] = ["%s alphabet (%d operations), histories <= %d" % (sel, sum(1 for _ in open(alphas[sel])), d) for sel, d in passes]
     ctx.exhaustive = False
     ctx.assumptions = ["the observable fields of the two objects (index range, contents, capacity, capacity_min_index, ownership, "
                        "block cell) determine their future behaviour: a history is not extended when they were reached before",
